@@ -1,4 +1,4 @@
-import PhyVerif.Driver.Json
+import PhyVerif.Driver.Rat
 import PhyVerif.Model.C07
 import PhyVerif.Spec.C07
 namespace PhyVerif.Driver
@@ -29,7 +29,8 @@ def runC07 (op : String) (j : Json) : R Json := do
   | "gmean" =>
     let arr ← getInts j "arr"; let sc ← getNats j "sc"
     pure (Json.mkObj [("model", jOpt (jList fun (p : Int × Nat) => Json.arr #[jInt p.1, jNat p.2])
-                                  (groupedMean arr sc))])
+                                  (groupedMean arr sc)),
+                      ("mean", jOpt jRats (groupedMeanQ arr sc))])
   | "tcounts" =>
     let sc ← getNats j "sc"; let st ← getNats j "st"; let nt ← getNat j "nt"
     let cs ← getNats j "cs"
